@@ -23,6 +23,10 @@ EAGER = {
     'statistics.mean': (0,), 'heapq.nlargest': (1,),
     'heapq.nsmallest': (1,), 'heapq.heapify': (0,),
     'builtins.reversed': (0,),   # needs a sequence: materialised upstream
+    # these pool every input before producing the first result
+    'itertools.product': None, 'itertools.permutations': (0,),
+    'itertools.combinations': (0,),
+    'itertools.combinations_with_replacement': (0,),
 }
 EAGER_METHODS = {'join': (0,), 'extend': (0,), 'update': (0,),
                  'union': None, 'intersection': None, 'difference': None,
@@ -41,10 +45,14 @@ LAZY = {
     'itertools.compress': (0, 1), 'itertools.groupby': (0,),
     'itertools.cycle': (0,),      # lazy, though it remembers what it saw
     'itertools.repeat': (), 'itertools.count': (),
+    'itertools.pairwise': (0,), 'itertools.batched': (0,),
     'yaql.language.utils.limit_iterable': (0,),
     'yaql.language.utils.memorize': (0,),
 }
 NEXT = {'builtins.next'}
+LIBRARY_MODULES = {'itertools', 'functools', 'collections', 'heapq',
+                   'random', 'statistics', 'json', 'operator', 'math',
+                   'bisect', 'string', 're', 'copy', 'pickle'}
 TESTS = {'builtins.isinstance', 'builtins.callable', 'builtins.bool',
          'builtins.type', 'builtins.id', 'builtins.hash', 'builtins.repr',
          'builtins.str', 'builtins.hasattr', 'builtins.getattr',
@@ -366,6 +374,12 @@ class Consumption:
             return out or mk('test', tgt.key)
         if isinstance(tgt, model.ClassInfo):
             return mk('escape', tgt.key)
+        if d and tgt is None and '.' in d and not d.startswith('yaql.') \
+                and d.split('.')[0] in LIBRARY_MODULES:
+            # a resolved library callable that is in none of the catalogues
+            # (C14 counts it as a reader of a *streaming source*; C08/C13
+            # treat it like any other hand-over)
+            return mk('libcall', d)
         return mk('pass', model.norm(f))
 
     def _element_modes(self, fi, vararg):
